@@ -122,6 +122,13 @@ var specs = map[string]spec{
 		Stub: append([]string{"TLS: NOT explored (plain TCP only)", "nbhttp.Client: NOT explored in this check (server side only)"}, stubKernel...),
 		Assumptions: append([]string{"requests pipelined behind an exchange that closes the connection may be dropped", "the client clause of C10 (nbhttp.Client callbacks) and TLS are not covered; the evidence says so"}, assumeKernel...),
 	},
+	"C14": {
+		World: "e2e", Level: "exploration", QuickS: 40, ThoroughS: 900,
+		Rule: "cases = nbhttp.Engine + websocket.Upgrader in upgrade path {poller-driven (IOModNonBlocking), blocking with parser hand-over and asynchronous send queue (IOModBlocking), transferred to the poller (UpgradeAndTransferConnToPoller)} x epoll mode x 1-2 pollers x executor pool of 2 / 4; 1-3 raw simulated clients perform the HTTP upgrade, then send 0-5 masked messages (optionally fragmented, optionally in one burst immediately after the 101) while 0-4 server goroutines per connection call WriteMessage concurrently with fragmentation by MaxWebsocketFramePayloadSize in {none,16,100,1000}; connections end by client close frame, client reset, application Close or stay open; oracle: callback log matches open-start open-end (msg-start k msg-end k)* [close] with no overlap, messages in wire order exactly once (prefix if the connection ended early), close exactly once when the connection ended; the frame stream seen by the peer decodes (independent codec) into whole messages, fragments of one message contiguous, every WriteMessage that returned nil exactly once on a surviving connection, nothing from another connection; non-trivial = >= 2 concurrent writers on a connection or a close raced a callback / writer",
+		Real: []string{"nbhttp.Engine, websocket.Upgrader / Conn (all three engine upgrade paths), nbio core, taskpool (transformed real code)"},
+		Stub: append([]string{"upgrade path 'blocking with own read loop' (HandleRead, used for connections from a std net/http server): NOT explored", "TLS: NOT explored"}, stubKernel...),
+		Assumptions: append([]string{"the simulated client is compliant: it sends data frames only after it has received the complete 101 response, possibly immediately", "FIFO of the asynchronous send queue is judged from the peer's side (whole messages, per-writer order), not with a separate porcupine model"}, assumeKernel...),
+	},
 	"C11": {
 		World: "stream", Level: "exploration", QuickS: 30, ThoroughS: 600,
 		Rule: "cases = a mix of the C09 handler programs (half with transport write failures, biased to 64KiB-crossing writes), the C12 round trips (40% with sender transport failures), the C13 byzantine frame sequences, the C08 corrupted request streams through ServerProcessor/BodyReader and the C15 limit scenarios; the primary oracle is the ownership-tracking allocator installed as mempool.DefaultMemPool (stable pointer, like MemPool) and as BodyAllocator (moving when capacity is exceeded, like AlignedAllocator): Free/Append/AppendString/Realloc on a freed or foreign buffer, second Free, write into a quarantined (poisoned, never recycled) buffer, poison showing up on the wire; non-trivial = at least 3 buffers were returned to the allocators in the run; distinct = fingerprint of the underlying case",
